@@ -342,12 +342,6 @@ impl Suite for ColBuf {
         let ops = parse_ops(&it[1]);
         // columns beyond the size the list-based model can evaluate are checked by the oracle only
         let with_model = it.len() < 3;
-        let sh0 = shape_of(&ops);
-        // The model is the dev profile (overflow = panic).  In a release build the same overflow wraps
-        // (and the wrapped column still decodes correctly), so the classes in which the model panics
-        // are left to the oracle there.
-        let with_model = with_model
-            && (cfg!(debug_assertions) || !(sh0.int_min_is_i64_min_and_max_is_zero || sh0.increasing_step_overflows));
         let tbl = float_table(floats_of_ops(&ops).iter());
         let model_input = Sx::l(vec![tbl, it[1].clone()]);
         let exp = expected(&ops);
